@@ -172,7 +172,7 @@ def walk_containers(v):
             yield from walk_containers(x)
 
 
-def preemption_schedules(run, quick):
+def preemption_schedules(run, quick, two_preemptions=None):
     """Every schedule with <= 2 pre-emptions at every line offset (sampled for 2), for fixed pairs of calls over shared
     trusted metadata; each thread's verdict must equal its sequential verdict."""
     auth = lib.cct("authentication")
@@ -235,7 +235,7 @@ def preemption_schedules(run, quick):
             schedules = [[(0, k), (1, 10 ** 9)] for k in range(0, n0 + 1)] + [[(1, k), (0, 10 ** 9)] for k in range(0, n1 + 1)]
             two = [[(0, k0), (1, k1), (0, 10 ** 9)] for k0 in range(0, n0 + 1) for k1 in range(1, n1 + 1)]
             r.shuffle(two)
-            schedules += two[: (300 if quick else 6000)]
+            schedules += two[: (two_preemptions if two_preemptions is not None else (300 if quick else 6000))]
             for s in schedules:
                 res, _ = sched.Scheduler(s).run([f0, f1])
                 total += 1
